@@ -23,14 +23,19 @@ import (
 type vfc06Fault struct {
 	Kind  int // vfc03Fault*
 	After int
+	Shape int // index into vfc03ErrShapes (open / recv faults)
 }
 
 func (f vfc06Fault) String() string {
+	sh := ""
+	if f.Shape != 0 {
+		sh = "/" + vfc03ErrShapes[f.Shape]
+	}
 	switch f.Kind {
 	case vfc03FaultOpen:
-		return "open"
+		return "open" + sh
 	case vfc03FaultRecv:
-		return fmt.Sprintf("recv@%d", f.After)
+		return fmt.Sprintf("recv@%d%s", f.After, sh)
 	case vfc03FaultBlock:
 		return fmt.Sprintf("block@%d", f.After)
 	}
@@ -39,6 +44,14 @@ func (f vfc06Fault) String() string {
 
 func vfc06KindName(k int) string {
 	return map[int]string{vfc03FaultOpen: "open", vfc03FaultRecv: "recv", vfc03FaultBlock: "timeout"}[k]
+}
+
+// vfc06FaultClass names a fault for fingerprints: kind plus the error shape when it is not a plain error.
+func vfc06FaultClass(f vfc06Fault) string {
+	if f.Shape != 0 && f.Kind != vfc03FaultBlock {
+		return vfc06KindName(f.Kind) + "(" + vfc03ErrShapes[f.Shape] + ")"
+	}
+	return vfc06KindName(f.Kind)
 }
 
 type vfc06Case struct {
@@ -119,18 +132,18 @@ func vfc06RandLayout(rng *rand.Rand, stores int) [][]vfc03Frame {
 // vfc06Points lists the failure points of one store streaming n frames.
 func vfc06Points(n int, reduced bool) []vfc06Fault {
 	if reduced {
-		ps := []vfc06Fault{{vfc03FaultOpen, 0}, {vfc03FaultRecv, 0}, {vfc03FaultBlock, 0}}
+		ps := []vfc06Fault{{Kind: vfc03FaultOpen, After: 0}, {Kind: vfc03FaultRecv, After: 0}, {Kind: vfc03FaultBlock, After: 0}}
 		if n >= 1 {
-			ps = append(ps, vfc06Fault{vfc03FaultRecv, n})
+			ps = append(ps, vfc06Fault{Kind: vfc03FaultRecv, After: n})
 		}
 		if n >= 2 {
-			ps = append(ps, vfc06Fault{vfc03FaultRecv, n / 2})
+			ps = append(ps, vfc06Fault{Kind: vfc03FaultRecv, After: n / 2})
 		}
 		return ps
 	}
-	ps := []vfc06Fault{{vfc03FaultOpen, 0}}
+	ps := []vfc06Fault{{Kind: vfc03FaultOpen, After: 0}}
 	for k := 0; k <= n; k++ {
-		ps = append(ps, vfc06Fault{vfc03FaultRecv, k}, vfc06Fault{vfc03FaultBlock, k})
+		ps = append(ps, vfc06Fault{Kind: vfc03FaultRecv, After: k}, vfc06Fault{Kind: vfc03FaultBlock, After: k})
 	}
 	return ps
 }
@@ -156,8 +169,20 @@ func vfc06FaultVectors(layout [][]vfc03Frame) [][]vfc06Fault {
 			v := make([]vfc06Fault, s)
 			for j, i := range failing {
 				v[i] = choices[j][idx[j]]
+				if len(failing) > 1 && v[i].Kind != vfc03FaultBlock {
+					// several stores failing: the error shape rotates with the vector
+					v[i].Shape = (len(out) + i) % len(vfc03ErrShapes)
+				}
 			}
 			out = append(out, v)
+			if len(failing) == 1 && v[failing[0]].Kind != vfc03FaultBlock {
+				// one store failing: every error shape at every open / recv failure point
+				for sh := 1; sh < len(vfc03ErrShapes); sh++ {
+					w := append([]vfc06Fault(nil), v...)
+					w[failing[0]].Shape = sh
+					out = append(out, w)
+				}
+			}
 			j := 0
 			for ; j < len(idx); j++ {
 				idx[j]++
@@ -186,6 +211,16 @@ func vfc06Expand(id string, layout [][]vfc03Frame, vectors [][]vfc06Fault, delay
 		timeouts := []time.Duration{0, 5 * time.Second}
 		if block {
 			timeouts = []time.Duration{30 * time.Millisecond}
+		}
+		nfail, shaped := 0, false
+		for _, f := range v {
+			if f.Kind != vfc03FaultNone {
+				nfail++
+				shaped = shaped || f.Shape != 0
+			}
+		}
+		if nfail == 1 && shaped {
+			timeouts = []time.Duration{0} // the extra error shapes are enumerated without the frame timer
 		}
 		for _, strat := range []string{"abort", "warn", "disabled"} {
 			for _, rc := range []struct {
@@ -218,7 +253,7 @@ func vfc06Run(c *vfc06Case, seed int64) vfc06Result {
 		f := &vfc03Client{
 			Name: fmt.Sprintf("vfstore-%d", i), Idx: i, MinT: math.MinInt64, MaxT: math.MaxInt64, WithoutRepl: true, Sharding: true,
 			Frames:    func(*storepb.SeriesRequest) []vfc03Frame { return l },
-			FaultKind: c.Faults[i].Kind, FaultAfter: c.Faults[i].After,
+			FaultKind: c.Faults[i].Kind, FaultAfter: c.Faults[i].After, ErrShape: c.Faults[i].Shape,
 		}
 		if c.Delays {
 			f.DelaySeed = seed + int64(i)*7919 + 1
@@ -266,7 +301,7 @@ func vfc06Check(c *vfc06Case, res vfc06Result) (fp, what string) {
 	for i, failed := range res.observed {
 		if failed {
 			anyFailed = true
-			kinds[vfc06KindName(c.Faults[i].Kind)] = true
+			kinds[vfc06FaultClass(c.Faults[i])] = true
 		}
 	}
 	var ks []string
@@ -298,7 +333,7 @@ func vfc06Check(c *vfc06Case, res vfc06Result) (fp, what string) {
 				}
 			}
 			if !found {
-				return fmt.Sprintf("warn:no-warning-for-failed-store fault=%s retrieval=%s", vfc06KindName(c.Faults[i].Kind), c.Retr),
+				return fmt.Sprintf("warn:no-warning-for-failed-store fault=%s retrieval=%s", vfc06FaultClass(c.Faults[i]), c.Retr),
 					fmt.Sprintf("store %s failed (%s) but none of the %d warnings names it: %v", name, c.Faults[i], len(res.warns), res.warns)
 			}
 			continue
@@ -332,12 +367,157 @@ func vfc06Check(c *vfc06Case, res vfc06Result) (fp, what string) {
 	return "", ""
 }
 
+// ---- directed real-time scenarios: a stalled merge loop must not fail a healthy store ----
+
+const vfc06StallT = time.Second // frame timeout of the stalled-merge scenarios
+
+type vfc06Stall struct {
+	Variant     string // slow-healthy-peer | peer-fails-by-timeout
+	HealthyPos  int    // position of the healthy store in the fan-out (0 or 1)
+	Buf         int
+	NHealthy    int
+	GapFraction float64 // the peer delivers a frame every GapFraction*T
+}
+
+func (s vfc06Stall) key() string {
+	return fmt.Sprintf("stalled-merge variant=%s healthy_pos=%d lazy buf=%d healthy_series=%d peer_gap=%.1fT T=%s strategy=warn", s.Variant, s.HealthyPos, s.Buf, s.NHealthy, s.GapFraction, vfc06StallT)
+}
+
+func vfc06StallList() []vfc06Stall {
+	var out []vfc06Stall
+	for _, v := range []string{"slow-healthy-peer", "peer-fails-by-timeout"} {
+		for pos := 0; pos < 2; pos++ {
+			for _, buf := range []int{1, 2} {
+				for _, n := range []int{6, 10} {
+					out = append(out, vfc06Stall{Variant: v, HealthyPos: pos, Buf: buf, NHealthy: n, GapFraction: 0.6})
+				}
+			}
+		}
+	}
+	return out
+}
+
+// vfc06RunStall: a peer whose series all sort first delivers a frame every 0.6*T (every single Recv is faster than the
+// frame timeout T) so the merge loop is stalled for more than T in total, while the healthy store (more series than the
+// lazy buffer, every Recv immediate, honours its stream context like a gRPC client) waits for a free buffer slot.
+// Bracketing keeps the verdict independent of load: the healthy fake measures each of its own Recv calls and a heartbeat
+// measures scheduler stalls; if either is too long the scenario is discarded, not judged.
+func vfc06RunStall(sc vfc06Stall) (fp, what string, discarded bool, witness map[string]any) {
+	gap := time.Duration(float64(vfc06StallT) * sc.GapFraction)
+	var hfr, pfr []vfc03Frame
+	for i := 0; i < sc.NHealthy; i++ {
+		hfr = append(hfr, vfc03Frame{Series: []vfc03Series{{Lset: labels.FromStrings("a", fmt.Sprintf("5%02d", i)), Chunks: []vfc03Chunk{{Min: 0, Max: 99}}}}})
+	}
+	peer := &vfc03Client{Name: "vfpeer", MinT: math.MinInt64, MaxT: math.MaxInt64, WithoutRepl: true, Sharding: true}
+	npeer := 3
+	if sc.Variant == "peer-fails-by-timeout" {
+		npeer = 1
+		peer.FaultKind, peer.FaultAfter = vfc03FaultBlock, 1
+	}
+	for i := 0; i < npeer; i++ {
+		pfr = append(pfr, vfc03Frame{Series: []vfc03Series{{Lset: labels.FromStrings("a", fmt.Sprintf("1%02d", i)), Chunks: []vfc03Chunk{{Min: 0, Max: 99, Variant: 1}}}}})
+		peer.RecvDelay = append(peer.RecvDelay, gap)
+	}
+	peer.Frames = func(*storepb.SeriesRequest) []vfc03Frame { return pfr }
+	healthy := &vfc03Client{Name: "vfhealthy", MinT: math.MinInt64, MaxT: math.MaxInt64, WithoutRepl: true, Sharding: true, HonourCtx: true,
+		Frames: func(*storepb.SeriesRequest) []vfc03Frame { return hfr }}
+	clients := []Client{healthy, peer}
+	peer.Idx = 1
+	if sc.HealthyPos == 1 {
+		clients = []Client{peer, healthy}
+		peer.Idx, healthy.Idx = 0, 1
+	}
+	// heartbeat: the longest time a 10ms sleep took while the scenario ran
+	stop := make(chan struct{})
+	hbDone := make(chan time.Duration, 1)
+	go func() {
+		var worst time.Duration
+		for {
+			select {
+			case <-stop:
+				hbDone <- worst
+				return
+			default:
+			}
+			t0 := time.Now()
+			time.Sleep(10 * time.Millisecond)
+			if d := time.Since(t0); d > worst {
+				worst = d
+			}
+		}
+	}()
+	p := NewProxyStore(nil, nil, func() []Client { return clients }, component.Query, labels.EmptyLabels(), vfc06StallT, LazyRetrieval,
+		WithLazyRetrievalMaxBufferedResponsesForProxy(sc.Buf))
+	req := &storepb.SeriesRequest{MinTime: 0, MaxTime: math.MaxInt64, PartialResponseStrategy: storepb.PartialResponseStrategy_WARN,
+		Matchers: []storepb.LabelMatcher{{Type: storepb.LabelMatcher_RE, Name: "a", Value: ".+"}}}
+	srv := vfc03NewServer(context.Background())
+	done := make(chan error, 1)
+	go func() { done <- p.Series(req, srv) }()
+	var err error
+	select {
+	case err = <-done:
+	case <-time.After(120 * time.Second):
+		close(stop)
+		return "", "", true, nil
+	}
+	close(stop)
+	hb := <-hbDone
+	out, warns := srv.flat()
+	maxRecv := time.Duration(healthy.maxRecvNs.Load())
+	witness = map[string]any{"scenario": sc.key(), "error": fmt.Sprint(err), "warnings": warns, "response": vfc03FmtOut(out),
+		"healthy_max_recv": maxRecv.String(), "heartbeat_worst_10ms_sleep": hb.String(), "healthy_stream_cancelled_by_proxy": healthy.ctxFailures.Load() > 0}
+	if maxRecv > vfc06StallT/2 || hb > vfc06StallT/4 {
+		return "", "", true, witness
+	}
+	class := "stalled-merge retrieval=lazy"
+	if err != nil {
+		if sc.Variant == "slow-healthy-peer" {
+			return "warn:request-failed-without-store-failure " + class, "no store failed (every Recv of every store was faster than the frame timeout) but Series returned " + err.Error(), false, witness
+		}
+		return "warn:request-failed fault=timeout retrieval=lazy", "Series returned " + err.Error(), false, witness
+	}
+	for _, w := range warns {
+		if strings.Contains(w, healthy.Name) {
+			return "warn:healthy-store-reported-failed " + class,
+				fmt.Sprintf("store %s never returned an error of its own and every one of its Recv calls took <= %s (frame timeout %s), but a warning reports it failed: %s", healthy.Name, maxRecv, vfc06StallT, w), false, witness
+		}
+	}
+	got := map[string]bool{}
+	for _, o := range out {
+		got[o.Lset.String()] = true
+	}
+	for _, f := range hfr {
+		if !got[f.Series[0].Lset.String()] {
+			return "warn:healthy-series-missing " + class, fmt.Sprintf("series %s of store %s (never failed, always fast) is not in the response", f.Series[0].Lset, healthy.Name), false, witness
+		}
+	}
+	if sc.Variant == "peer-fails-by-timeout" {
+		found := false
+		for _, w := range warns {
+			found = found || strings.Contains(w, peer.Name)
+		}
+		if !found {
+			return "warn:no-warning-for-failed-store fault=timeout retrieval=lazy", fmt.Sprintf("store %s failed by frame timeout but no warning names it: %v", peer.Name, warns), false, witness
+		}
+	} else {
+		for _, f := range pfr {
+			if !got[f.Series[0].Lset.String()] {
+				return "warn:healthy-series-missing " + class, fmt.Sprintf("series %s of the slow but healthy store %s is not in the response", f.Series[0].Lset, peer.Name), false, witness
+			}
+		}
+	}
+	return "", "", false, witness
+}
+
 func TestVF_C06(t *testing.T) {
 	r := vfkit.Start(t, "C06")
 	defer r.Finish()
 	r.Rule("enumeration: 1..3 stores (thorough: plus 4 stores and 100 seeded random layouts with PRNG delays) streaming <=4 single-series frames with overlapping label sets; every non-empty subset of stores failing; " +
 		"failure point in {Series() open error, Recv error after k=0..n frames, Recv blocks after k=0..n frames until the 30ms frame timeout cancels the stream} (all points when one store fails, " +
-		"{open, recv@0, recv@mid, recv@n, block@0} per store when several fail) x strategy {ABORT, WARN, PartialResponseDisabled} x {eager, lazy buf 1, lazy buf 20} x frame timer {off, 5s} ; " +
+		"{open, recv@0, recv@mid, recv@n, block@0} per store when several fail); the injected open/Recv error has one of 9 shapes (plain, errors.Wrap(io.EOF), fmt %w io.EOF, io.ErrUnexpectedEOF, gRPC Unavailable/DeadlineExceeded/Canceled, context.Canceled/DeadlineExceeded): " +
+		"all shapes at every point when one store fails, rotating when several fail; x strategy {ABORT, WARN, PartialResponseDisabled} x {eager, lazy buf 1, lazy buf 20} x frame timer {off, 5s}; " +
+		"plus 16 directed real-time scenarios (lazy, buffer 1/2, frame timeout 1s, WARN): a peer whose series sort first delivers a frame every 0.6s (or one frame, then stalls into its timeout) so the merge is stalled > timeout while the " +
+		"healthy store (6/10 series, every Recv immediate, honours its stream context) waits for a buffer slot; judged only if every Recv of the healthy fake took <= 0.5s and a 10ms heartbeat never took > 0.25s; " +
 		"oracle on the error/warnings/series returned by the real ProxyStore.Series: abort/disabled => error; warn => nil error, >=1 warning naming every store observed to fail, every series+chunk of every store not observed to fail; " +
 		"distinct = the case tuple; non-trivial = the fake store actually returned the injected error")
 	r.Assume("a store 'fails' iff the fake client returned a non-EOF error from Series() or Recv (observed, not planned); healthy fakes never fail, they ignore the stream context")
@@ -360,6 +540,34 @@ func TestVF_C06(t *testing.T) {
 	r.Extra("enumerated_cases", len(cases))
 	r.Require(int64(len(cases)), len(cases)*9/10)
 	r.Exhaustive(true)
+
+	// directed real-time scenarios run next to the enumeration (they mostly sleep)
+	stalls := vfc06StallList()
+	var swg sync.WaitGroup
+	for j, sc := range stalls {
+		ci := len(cases) + j
+		if !r.Want(ci) {
+			continue
+		}
+		swg.Add(1)
+		go func(sc vfc06Stall) {
+			defer swg.Done()
+			r.Guard(ci, "proxy-series-stalled-merge", sc.key(), func() {
+				fp, what, discarded, w := vfc06RunStall(sc)
+				if discarded {
+					r.Count("stalled_merge_scenarios_discarded_machine_too_slow", 1)
+					return
+				}
+				r.Eval(1)
+				r.Distinct(sc.key())
+				r.Count("stalled_merge_scenarios_judged", 1)
+				if fp != "" {
+					r.Violation(ci, fp, what+" ["+sc.key()+"]", w)
+				}
+			})
+		}(sc)
+	}
+	defer swg.Wait()
 
 	var wg sync.WaitGroup
 	idx := make(chan int)
@@ -407,4 +615,8 @@ func TestVF_C06(t *testing.T) {
 	}
 	close(idx)
 	wg.Wait()
+	swg.Wait()
+	if !r.Replaying() && r.Counter("stalled_merge_scenarios_judged") < int64(len(stalls))/2 {
+		r.Inconclusive(fmt.Sprintf("only %d of %d stalled-merge scenarios could be judged (machine too slow for the timing bracket)", r.Counter("stalled_merge_scenarios_judged"), len(stalls)))
+	}
 }
